@@ -95,10 +95,10 @@ type zzvCtx struct {
 	cancelled bool
 }
 
-func zzvNewCtx() *zzvCtx                               { return &zzvCtx{done: make(chan struct{})} }
-func (c *zzvCtx) Deadline() (time.Time, bool)          { return time.Time{}, false }
-func (c *zzvCtx) Done() <-chan struct{}                { return c.done }
-func (c *zzvCtx) Value(key any) any                    { return nil }
+func zzvNewCtx() *zzvCtx                      { return &zzvCtx{done: make(chan struct{})} }
+func (c *zzvCtx) Deadline() (time.Time, bool) { return time.Time{}, false }
+func (c *zzvCtx) Done() <-chan struct{}       { return c.done }
+func (c *zzvCtx) Value(key any) any           { return nil }
 func (c *zzvCtx) Err() error {
 	select {
 	case <-c.done:
@@ -193,9 +193,15 @@ type zzvPubLog struct {
 	tags       [zzvPoolN][]int // sequence numbers of the publications of pool[i]
 	beforeStop [zzvPoolN]bool  // published before the cancellation point
 	seq        int
+	conc       [zzvPoolN]bool // published by the concurrent publisher goroutine (tag zzvConcTag+i); written by it only
 }
 
+const zzvConcTag = 200
+
 func (l *zzvPubLog) has(i, tag int) bool {
+	if l.conc[i] && tag == zzvConcTag+i {
+		return true
+	}
 	for _, t := range l.tags[i] {
 		if t == tag {
 			return true
@@ -203,6 +209,9 @@ func (l *zzvPubLog) has(i, tag int) bool {
 	}
 	return false
 }
+
+// published: pool[i] was published at or after the moment the want was expressed
+func (l *zzvPubLog) published(i int) bool { return l.conc[i] || len(l.tags[i]) > 0 }
 
 // zzvCheckDelivery: the oracle shared by the getter/notification entries.
 //
@@ -223,7 +232,7 @@ func zzvCheckDelivery(pool []cid.Cid, requested [zzvPoolN]bool, log *zzvPubLog, 
 	}
 	if exact {
 		for i := range pool {
-			if requested[i] && len(log.tags[i]) > 0 {
+			if requested[i] && log.published(i) {
 				verifrt.Assert("C37.published-requested-block-delivered", delivered[i])
 			}
 		}
@@ -251,7 +260,7 @@ func zzvCheckCleanup(pool []cid.Cid, requested [zzvPoolN]bool, log *zzvPubLog, d
 		if !requested[i] {
 			continue
 		}
-		if len(log.tags[i]) == 0 {
+		if !log.published(i) {
 			verifrt.Assert("C37.unreceived-key-is-cleaned-up", inCw[i])
 		}
 		if exact && !delivered[i] {
@@ -331,15 +340,58 @@ func zzvGetter(light bool) {
 	defer sesscancel()
 	rec := &zzvRec{}
 	log := &zzvPubLog{}
-	// a zero-latency answer: the first requested block is published the moment the want has been expressed
-	// (from inside the want callback), i.e. before AsyncGetBlocks returns
-	if nk > 0 && verifrt.Param("W", 1) == 1 && verifrt.NondetRange("answeredDuringWant", 0, 1) == 1 {
-		rec.onWant = func() {
-			log.seq++
-			log.tags[0] = append(log.tags[0], log.seq) // keys[0] is pool[0]
-			log.beforeStop[0] = true
-			notif.Publish(peer.ID(""), zzvBlock(pool[0], log.seq))
+	// Zero-latency answers: orderings of "express the want" / "subscribe" / "publish". Whatever is published at or
+	// after the moment the want has been expressed counts as published for the oracle below.
+	//   W&1: from inside the want callback (i.e. before AsyncGetBlocks returns) an arbitrary subset of the
+	//        requested keys and of one unrequested pool member is published, one Publish per block;
+	//   W&2: a publisher goroutine that is released by the want callback publishes one block (requested or not)
+	//        concurrently with the rest of AsyncGetBlocks — where exactly is up to the schedule exploration.
+	W := verifrt.Param("W", 1)
+	hiKey := nreq // pool[0..nreq-1] are the requested keys, pool[nreq] (if any) stands for an unrequested one
+	if hiKey > zzvPoolN-1 {
+		hiKey = zzvPoolN - 1
+	}
+	if nk > 0 && W&1 != 0 {
+		var during []int
+		for i := 0; i <= hiKey; i++ {
+			if verifrt.NondetRange("answeredDuringWant", 0, 1) == 1 {
+				during = append(during, i)
+			}
 		}
+		if len(during) > 0 {
+			rec.onWant = func() {
+				for _, i := range during {
+					log.seq++
+					log.tags[i] = append(log.tags[i], log.seq)
+					log.beforeStop[i] = true
+					notif.Publish(peer.ID(""), zzvBlock(pool[i], log.seq))
+				}
+			}
+		}
+	}
+	if nk > 0 && W&2 != 0 && verifrt.NondetRange("answeredConcurrently", 0, 1) == 1 {
+		ck := verifrt.NondetRange("concKey", 0, hiKey)
+		wantOut := make(chan struct{})
+		prev := rec.onWant
+		rec.onWant = func() {
+			close(wantOut)
+			if !verifrt.Symbolic() {
+				// natively (GOMAXPROCS 1) the want callback yields here — the real one hands the keys to the
+				// session's run loop over a channel — so the released publisher runs at this very point, which is
+				// one of the schedules the engine explores
+				for i := 0; i < 20; i++ {
+					runtime.Gosched()
+				}
+			}
+			if prev != nil {
+				prev()
+			}
+		}
+		go func() {
+			<-wantOut
+			log.conc[ck] = true
+			notif.Publish(peer.ID(""), zzvBlock(pool[ck], zzvConcTag+ck))
+		}()
 	}
 
 	out, err := bsgetter.AsyncGetBlocks(ctx, sessctx, keys, notif, rec.want, rec.cwants)
@@ -356,7 +408,7 @@ func zzvGetter(light bool) {
 
 	nb := verifrt.NondetRange("nbatches", 0, B)
 	cancelAt := verifrt.NondetRange("cancelAt", -1, nb) // -1: not before quiescence; i: before batch i; nb: right after the last batch
-	which := verifrt.NondetRange("cancelWhich", 0, 1)    // 0: request context, 1: session context
+	which := verifrt.NondetRange("cancelWhich", 0, 1)   // 0: request context, 1: session context
 	stop := func() {
 		if which == 0 {
 			cancel()
@@ -382,7 +434,7 @@ func zzvGetter(light bool) {
 	if !stopped {
 		all := true
 		for i := range pool {
-			if requested[i] && len(log.tags[i]) == 0 {
+			if requested[i] && !log.published(i) {
 				all = false
 			}
 		}
